@@ -36,7 +36,20 @@ func wireType(b []byte) (uint8, error) {
 
 // build makes message number tag of kind k of this protocol.
 func (sp *protoSpec) build(k msgKind, tag uint64) (*wmsg, error) {
-	b := k.Make(tag)
+	return sp.buildBytes(k, k.Make(tag))
+}
+
+// mustBuildSized builds kind k with an n-byte payload field (sp.sized(k) != nil).
+func (sp *protoSpec) mustBuildSized(k msgKind, tag uint64, n int) *wmsg {
+	m, err := sp.buildBytes(k, sp.sized(k)(tag, n))
+	if err != nil {
+		panic(err)
+	}
+	m.Kind = fmt.Sprintf("%s[%d]", k.Name, n)
+	return m
+}
+
+func (sp *protoSpec) buildBytes(k msgKind, b []byte) (*wmsg, error) {
 	t, err := wireType(b)
 	if err != nil {
 		return nil, fmt.Errorf("%s/%s: %v", sp.Name, k.Name, err)
@@ -46,7 +59,7 @@ func (sp *protoSpec) build(k msgKind, tag uint64) (*wmsg, error) {
 	}
 	obj, err := sp.FromCbor(uint(t), b)
 	if err != nil || obj == nil {
-		return nil, fmt.Errorf("%s/%s: decoder rejects sample %x: %v", sp.Name, k.Name, b, err)
+		return nil, fmt.Errorf("%s/%s: decoder rejects sample %.40x: %v", sp.Name, k.Name, b, err)
 	}
 	if obj.Type() != t {
 		return nil, fmt.Errorf("%s/%s: decoded type %d != %d", sp.Name, k.Name, obj.Type(), t)
